@@ -12,7 +12,7 @@ import re
 
 from vlib import core
 
-NSLICES = 8
+NSLICES = 12
 
 
 def run_edges(ctx, want_trace=True):
